@@ -645,6 +645,36 @@ func c14Eval(c *c14Case, modelRaw json.RawMessage, graph bool, reps int) ([]c14F
 
 // ---- shrinking: drop chunks / fields while the same signature is still produced ----
 
+func c14CopyVal(v *c14Val) *c14Val {
+	if v == nil {
+		return nil
+	}
+	n := &c14Val{T: v.T, V: v.V, IsMap: v.IsMap}
+	for _, kv := range v.M {
+		n.M = append(n.M, c14KV{kv.K, c14CopyVal(kv.V)})
+	}
+	return n
+}
+
+// every copy of v with one (key, value) removed at some depth
+func c14ValEdits(v *c14Val) []*c14Val {
+	if v == nil || !v.IsMap {
+		return nil
+	}
+	var out []*c14Val
+	for j := range v.M {
+		n := c14CopyVal(v)
+		n.M = append(n.M[:j:j], n.M[j+1:]...)
+		out = append(out, n)
+		for _, sub := range c14ValEdits(v.M[j].V) {
+			n := c14CopyVal(v)
+			n.M[j].V = sub
+			out = append(out, n)
+		}
+	}
+	return out
+}
+
 func c14Candidates(c *c14Case) []*c14Case {
 	var out []*c14Case
 	clone := func() *c14Case {
@@ -686,14 +716,9 @@ func c14Candidates(c *c14Case) []*c14Case {
 					return true
 				},
 			}
-			if m.Extra != nil {
-				for j := range m.Extra.M {
-					jj := j
-					edits = append(edits, func(m *c14Msg) bool {
-						m.Extra.M = append(m.Extra.M[:jj:jj], m.Extra.M[jj+1:]...)
-						return true
-					})
-				}
+			for _, ev := range c14ValEdits(m.Extra) {
+				ev := ev
+				edits = append(edits, func(m *c14Msg) bool { m.Extra = ev; return true })
 			}
 			for _, e := range edits {
 				var mm *c14Msg
@@ -712,11 +737,9 @@ func c14Candidates(c *c14Case) []*c14Case {
 			if v == nil {
 				continue
 			}
-			for j := range v.M {
-				vv, _ := c14ParseVal(raw)
-				vv.M = append(vv.M[:j:j], vv.M[j+1:]...)
+			for _, ev := range c14ValEdits(v) {
 				n := clone()
-				n.Chunks[i] = c14Raw(vv)
+				n.Chunks[i] = c14Raw(ev)
 				out = append(out, n)
 			}
 		}
@@ -725,9 +748,6 @@ func c14Candidates(c *c14Case) []*c14Case {
 }
 
 func c14AskModel(ctx *vh.Ctx, c *c14Case) (json.RawMessage, error) {
-	if c.Kind == "marr" {
-		return nil, nil
-	}
 	return ctx.Oracle.Ask("C14", c)
 }
 
@@ -863,13 +883,9 @@ func runC14(ctx *vh.Ctx) error {
 				cases = append(cases, c)
 				asks = append(asks, c)
 			}
-			var answers []json.RawMessage
-			if p.kind != "marr" {
-				var err error
-				answers, err = ctx.Oracle.AskBatch("C14", asks)
-				if err != nil {
-					return err
-				}
+			answers, err := ctx.Oracle.AskBatch("C14", asks)
+			if err != nil {
+				return err
 			}
 			for i, c := range cases {
 				var raw json.RawMessage
